@@ -35,11 +35,11 @@ Proof.
 Qed.
 
 Section ObjLike.
-Variables lead cat_fix str_white va_fix va_whole : bool.
+Variables lead cat_fix str_white resub_fix va_fix va_whole : bool.
 Variable max_level : nat.
 Variable tb : table.
 
-Notation runM := (run lead cat_fix str_white None false va_fix va_whole max_level tb).
+Notation runM := (run lead cat_fix str_white resub_fix None false va_fix va_whole max_level tb).
 
 (* every macro of the table is object-like, stored under its own name, with a lexer-made body *)
 Hypothesis Hobj : forall k m, get_macro tb k = Some m ->
@@ -296,7 +296,7 @@ Definition E_all (l : list tok) : list tok := flat_map (E (List.length names) [N
 Theorem expand_objlike l :
   forallb okt l = true -> S (List.length names) < max_level ->
   exists n, forall fuel, n <= fuel ->
-    expand lead cat_fix str_white None false va_fix va_whole max_level tb fuel l = Ok (E_all l).
+    expand lead cat_fix str_white resub_fix None false va_fix va_whole max_level tb fuel l = Ok (E_all l).
 Proof.
   intros Hok Hlev.
   destruct (scan_all (List.length names) l [] false [] [None] Hok) as (n & pre' & Hs & Hrun).
